@@ -145,6 +145,9 @@ def close_pool():
         _POOL = None
 
 
+LEVEL_BATCH = 8192
+
+
 def explore(spec_key, factory_module, factory_name, max_states=None,
             time_budget=None, progress=False):
     """Run BFS for the spec identified by ``spec_key``.  Returns Result."""
@@ -173,7 +176,19 @@ def explore(spec_key, factory_module, factory_name, max_states=None,
         chunk = max(1, min(64, len(jobs) // 64))
         nxt = []
         ntrans = 0
-        results = pool.map(_expand, jobs, chunksize=chunk)
+        if time_budget:
+            # the budget also binds inside a level: the frontier is expanded in (ordered) batches and the level
+            # is cut short once the budget is spent; what was expanded is judged as usual, the rest of the
+            # frontier stays unexpanded and the run is reported as capped (never as closure)
+            results = []
+            for i in range(0, len(jobs), LEVEL_BATCH):
+                results.extend(pool.map(_expand, jobs[i:i + LEVEL_BATCH], chunksize=chunk))
+                if time.time() - t0 > time_budget and i + LEVEL_BATCH < len(jobs):
+                    capped = "time budget %ds, depth %d expanded for %d of %d frontier states" % (
+                        time_budget, depth + 1, i + LEVEL_BATCH, len(jobs))
+                    break
+        else:
+            results = pool.map(_expand, jobs, chunksize=chunk)
         # deterministic merge: results are in job order; jobs are sorted
         for r in results:
             if r[0] == "diverged":
@@ -217,6 +232,8 @@ def explore(spec_key, factory_module, factory_name, max_states=None,
                      time.time() - t0), file=sys.stderr)
         nxt.sort(key=lambda x: (x[0], x[1]))
         frontier = nxt
+        if capped:
+            break
         if max_states and len(seen) > max_states:
             capped = "state cap %d" % max_states
             break
